@@ -1,9 +1,6 @@
-/- C01 driver: not written yet -/
-import Driver.Parse
+/- C01 driver: the C07 engine (tree programs, tape decompilation, reference evaluation). -/
+import Driver.C07
 
 namespace Driver.C01
-
-def run (_args : List String) (lines : Array String) : Array String :=
-  #[s!"MISMATCH driver-not-implemented {lines.size}"]
-
+def run (args : List String) (lines : Array String) : Array String := Driver.C07.run args lines
 end Driver.C01
